@@ -133,6 +133,20 @@ def r3_temp_names(ctx):
         roots, sl = c06.path_roots(b, r.args[0])
         sl_all = Slice(b, [op_local(r.args[0])], transparent=True) if op_local(r.args[0]) is not None else None
         unique = bool(sl_all) and any(UNIQUE.search(x.name) for x in sl_all.calls)
+        # the temp name belongs to ITS destination: a derivation that replaces the whole file name (with_file_name / set_file_name) without
+        # re-using the destination's own name gives every destination in that directory one shared temp file
+        if sl_all is not None:
+            repl = [x for x in sl_all.calls if re.search(r"Path::with_file_name$|PathBuf::set_file_name$", x.name)]
+            keeps = True
+            for x in repl:
+                a1 = op_local(x.args[1]) if len(x.args) > 1 else None
+                s2 = Slice(b, [a1], transparent=True) if a1 is not None else None
+                if not (s2 and any(re.search(r"Path::(file_name|file_stem)$", y.name) for y in s2.calls)):
+                    keeps = False
+            ctx.check(keeps, rule, [b.id, "temp-name-keeps-destination-name"], "the temp name contains its destination's file name",
+                      "%s builds the temp path by replacing the destination's file name (with_file_name / set_file_name) with a name that does not contain it: "
+                      "every entry stored in the same directory writes through ONE temp file, so concurrent puts of different keys truncate and rename each "
+                      "other's data (a get returns another key's bytes, a put fails with ENOENT)" % ctx._stable(b.id), r.loc())
         shared, why = shared_access(prog, b)
         if not shared:
             ctx.ok(rule, [b.id, "exclusive"], "routine runs under exclusive access (%s)" % why, r.loc(), sample={"routine": b.id, "access": why})
@@ -356,7 +370,49 @@ def r8_size_from_handle(ctx):
     ctx.floor(rule, n, 6, "read_exact call sites in cascette-cache / cascette-client-storage")
 
 
+def r9_decrement_follows_removal(ctx):
+    """final counts agree with the contents: a counter goes down only for an entry this task actually took out. Every fetch_sub on the entry /
+    byte counters sits on the Some edge of a removal from the map (or inside the closure of an atomic remove_if / retain): a decrement for a
+    victim chosen from a snapshot, settled after the loop, also counts the victims another task removed first"""
+    from .lib import result_local
+    rule = "C11.R9"
+    ctx.rule(rule, "every fetch_sub on a cache's entry / usage counter is dominated by the Some edge of a removal from the cache's map (or lies in a "
+                   "remove_if / retain closure)")
+    n = 0
+    for name, c in CACHE_FILES.items():
+        for b in bodies_of(ctx, c):
+            subs = [(x, f, o) for (x, f, o) in counter_ops(b, [c["usage"], c["count"]]) if o == "fetch_sub"]
+            if not subs:
+                continue
+            ctx.saw(b)
+            in_closure = False
+            if b.root and b.parent in ctx.prog.bodies:
+                pb = ctx.prog.bodies[b.parent]
+                for i, j, st in pb.stmts():
+                    r = st["r"]
+                    if r["k"] == "Agg" and r.get("body") == b.id:
+                        from .lib import forward_calls
+                        if any(re.search(r"::(remove_if|remove_if_mut|retain|retain_mut)$", x.name) for x in forward_calls(pb, st["p"][0])):
+                            in_closure = True
+            some_edges = set()
+            for m in map_ops(b, c["map"]):
+                if m.op in ("remove", "remove_entry", "remove_if", "insert"):
+                    rl, _ = result_local(b, m.call)
+                    for (some, none) in option_edges(b, rl):
+                        some_edges.add(some)
+            for (x, f, o) in subs:
+                n += 1
+                ctx.call_sites += 1
+                ok = in_closure or any(b.dominates(e, x.bb) for e in some_edges)
+                ctx.check(ok, rule, [b.id, "decrement-on-removal", f], "the decrement belongs to an entry this task removed",
+                          "%s decrements `%s` on a path that is not the success edge of a removal from `%s` (for example once per candidate after the loop): "
+                          "when another task removed the victim first, the entry is subtracted twice and size() / stats() drift below the real contents for good" %
+                          (ctx._stable(b.id), f, c["map"]), x.loc())
+    ctx.floor(rule, n, 8, "counter decrements in memory_cache.rs / disk_cache.rs")
+
+
 def run(ctx):
+    r9_decrement_follows_removal(ctx)
     r8_size_from_handle(ctx)
     r7_stale_write_back(ctx)
     r1_r2(ctx)
